@@ -463,7 +463,13 @@ def do_query(m, ref, medges, eid, sort_on, q, ctx, where):
             if not ctx.check(ints(row) == list(ref.F[f]), sig, f"{where}: face_to_vertices({f}) = {row!r}"):
                 return
             ok, r = ctx.call(sig, C.face_id, *row)
-            ok2, r2 = ctx.call(sig, C.face_id, row)
+            try:                                   # one container: undocumented form, "rejected or right" (see the face_id kind)
+                ok2, r2 = True, C.face_id(row)
+            except (TypeError, ValueError):
+                ctx.label("face_id:container-form-rejected")
+                ok2, r2 = True, f
+            except Exception:
+                ok2, r2 = ctx.call(sig, C.face_id, row)
             if ok and ok2:
                 ctx.check(r == f and r2 == f, sig, f"{where}: face_id(*face_to_vertices({f})) = {r!r}, face_id(face_to_vertices({f})) = {r2!r}")
             i = b % len(row)
